@@ -142,6 +142,16 @@ class Body:
         return self.key.rsplit("::", 1)[-1]
 
     @property
+    def short(self):
+        """stable, readable identity: `Type::method` / `<Type as Trait>::method`; no module paths, impl or closure indexes"""
+        import re
+        p = self.pretty
+        p = re.sub(r"::\{closure#\d+\}", "", p)
+        p = re.sub(r"<impl ([\w:]+::)?(\w+)>", r"\2", p)
+        p = re.sub(r"(\w+::)+(\w+)", lambda m: m.group(2), p)
+        return p
+
+    @property
     def derived(self):
         return bool(self.r.get("derived"))
 
@@ -666,6 +676,15 @@ class Program:
         r = [b for b in self.find(suffix, crate) if not b.is_closure]
         if len(r) == 1:
             return r[0]
+        if not r and "::" in suffix:
+            # `Type::method` where the impl lives in another module: match on the impl's self type
+            ty, name = suffix.rsplit("::", 1)
+            tyname = ty.rsplit("::", 1)[-1]
+            r = [b for b in self.bodies.values() if not b.is_closure and b.name == name and b.self_adt
+                 and b.self_adt.rsplit("::", 1)[-1] == tyname and (not crate or b.crate == crate)
+                 and not b.r.get("impl_trait")]
+            if len(r) == 1:
+                return r[0]
         return None
 
     def closures_of(self, key, recursive=True):
